@@ -282,8 +282,13 @@ static cfg_opt_t *cfg_getopt_secidx(cfg_t *cfg, const char *name,
 			/* no more subsections */
 			break;
 
-		if (!len)
+		if (!len) {
+			/* a step without a name (stray '|' or '='): a section
+			 * lookup must not resolve to what came before it */
+			if (index)
+				return NULL;
 			break;
+		}
 
 		secname = strndup(name, len);
 		if (!secname)
@@ -321,7 +326,8 @@ static cfg_opt_t *cfg_getopt_secidx(cfg_t *cfg, const char *name,
 		if (index)
 			*index = i;
 
-		sec = i >= 0 ? cfg_opt_getnsec(opt, i) : NULL;
+		/* also guards the conversion of a huge index to unsigned int */
+		sec = (i >= 0 && i < (long int)cfg_opt_size(opt)) ? cfg_opt_getnsec(opt, i) : NULL;
 		if (!sec && !is_set(CFGF_IGNORE_UNKNOWN, cfg->flags)) {
 			if (opt && !is_set(CFGF_MULTI, opt->flags))
 				cfg_error(cfg, _("no such option '%s'"), secname);
@@ -338,6 +344,8 @@ static cfg_opt_t *cfg_getopt_secidx(cfg_t *cfg, const char *name,
 			return NULL;
 
 		name += len;
+		if (index && *name == '|' && name[strspn(name, "|")] == '\0')
+			return NULL;	/* the path ends in a separator */
 		name += strspn(name, "|");
 	}
 
